@@ -16,6 +16,7 @@ var extClasses = map[string]bool{
 	"padded_block": true, "grant_position": true, "both_blocked": true, "many_streams": true, "block_size": true,
 	"settings_contents": true, "field_lists": true, "short_reads": true, "zero_priority": true,
 	"table_size_raised_lowered_inflight": true, "max_frame_size_lowered_queued": true, // round 8
+	"max_frame_size_lowered_block_queued": true, // round 9
 }
 
 func hdr(stream uint32, fields [][2]string, es bool) hw.Spec {
@@ -50,6 +51,7 @@ func extScenarios(tier string, base []scenario) []scenario {
 	out = append(out, zeroPriority()...)
 	out = append(out, tableSizeRaisedLoweredInFlight()...)
 	out = append(out, maxFrameSizeLoweredQueued()...)
+	out = append(out, maxFrameSizeLoweredBlockQueued()...)
 	return out
 }
 
@@ -707,6 +709,46 @@ func wireCheck(sc scenario, w *hw.World, ownC, ownS *ownWriter) []finding {
 					out = append(out, finding{d.dir + ":headers_priority_section_invented", fmt.Sprintf("stream %d: HEADERS sent without a priority section was written with %+v", x.Stream, g.Prio)})
 				case want && g.Prio != wp:
 					out = append(out, finding{d.dir + ":headers_priority_section_changed", fmt.Sprintf("stream %d: priority %+v was written as %+v", x.Stream, wp, g.Prio)})
+				}
+			}
+		}
+	}
+	return out
+}
+
+// maxFrameSizeLoweredBlockQueued (round 9): as maxFrameSizeLoweredQueued, but what waits behind the window-blocked
+// DATA frame is a HEADER BLOCK (trailers with END_STREAM) whose encoding is larger than the lowered maximum frame
+// size: the receiver has raised SETTINGS_MAX_FRAME_SIZE to 65536, the block (17000 / 40000 / 65000 bytes of raw
+// field value, sent by its author in frames of the relay's own default limit) is queued behind the DATA, the
+// receiver lowers its maximum to 16384 / 20000 and only then opens the window. The frame size limit that counts
+// for the queued block is the one in force when it is written: same fields, END_STREAM at the same position, and
+// no frame above the receiver's last announced maximum (the oracle clauses of every scenario).
+func maxFrameSizeLoweredBlockQueued() []scenario {
+	var out []scenario
+	huge := func(n int) [][2]string { return [][2]string{{"x-huge", strings.Repeat("~", n)}} } // sent raw: n bytes on the wire
+	for _, max := range []int{16384, 20000} {
+		for _, hn := range []int{17000, 40000, 65000} {
+			for _, n := range []int{1, max + 1} {
+				for _, dir := range []string{"c2s", "s2c"} {
+					trailers := hw.Spec{T: "headers", Stream: 1, Fields: append(append([][2]string{}, trailerFields...), huge(hn)...), Frags: 5, EndStream: true}
+					msg := []hw.Spec{data(1, n, false), trailers}
+					raise := settings([2]uint32{4, 0}, [2]uint32{5, 65536})
+					lower := settings([2]uint32{5, uint32(max)})
+					grant := hw.Spec{T: "wu", Stream: 1, Incr: uint32(n)}
+					var steps []step
+					if dir == "c2s" {
+						steps = []step{{Client: []hw.Spec{settings()}, Server: []hw.Spec{raise}},
+							{Client: append([]hw.Spec{hdr(1, reqFields, false)}, msg...)},
+							{Server: []hw.Spec{lower}}, {Server: []hw.Spec{grant}},
+							{Server: []hw.Spec{hdr(1, resFields, true)}}}
+					} else {
+						steps = []step{{Client: []hw.Spec{raise}, Server: []hw.Spec{settings()}},
+							{Client: []hw.Spec{hdr(1, reqFields, true)}},
+							{Server: append([]hw.Spec{hdr(1, resFields, false)}, msg...)},
+							{Client: []hw.Spec{lower}}, {Client: []hw.Spec{grant}}}
+					}
+					out = append(out, scenario{Fam: "grants", Class: "max_frame_size_lowered_block_queued", Bound: 0, Steps: steps,
+						Name: fmt.Sprintf("%s: receiver with max frame size 65536 and window 0, a %d-byte DATA frame and trailers with a %d-byte field queued, the receiver lowers its max frame size to %d, then grants", dir, n, hn, max)})
 				}
 			}
 		}
